@@ -227,8 +227,25 @@ def register(M):
         src = args[0]
         if isinstance(src, ConfText) and src.kind == 'json':
             return plain(src.denotes)
-        if isinstance(src, str):
-            raise AbsRaise(ExcVal('ValueError', ('JSONDecodeError',)), node)
+        if isinstance(src, ConfText) and src.kind not in ('json',):
+            raise AbsRaise(ExcVal('ValueError', ('JSONDecodeError',)), node)          # text the scenario declares not to be JSON
+        if isinstance(src, (str, bytes)):
+            # concrete text: the real parser's own answer (a pure function of the text); numbers become exact rationals
+            import json as _json
+            from fractions import Fraction as _Fr
+
+            def conv(x):
+                if isinstance(x, float):
+                    return _Fr(str(x)) if x == x and x not in (float('inf'), float('-inf')) else x
+                if isinstance(x, list):
+                    return [conv(y) for y in x]
+                if isinstance(x, dict):
+                    return {k: conv(v) for k, v in x.items()}
+                return x
+            try:
+                return conv(_json.loads(src))
+            except ValueError as e:
+                raise AbsRaise(ExcVal('ValueError', (f'JSONDecodeError: {e}'[:120],)), node)
         raise AbsRaise(ExcVal('TypeError', ('the JSON object must be str, bytes or bytearray',)), node)
 
     @ext('json.load')
@@ -242,6 +259,30 @@ def register(M):
 
     @ext('json.dumps')
     def _json_dumps(interp, args, kw, node):
+        import json as _json
+        from fractions import Fraction as _Fr
+
+        class _NotPlain(Exception):
+            pass
+
+        def conv(x):
+            if isinstance(x, bool) or x is None or isinstance(x, (int, str)):
+                return x
+            if isinstance(x, _Fr):
+                return int(x) if x.denominator == 1 and False else float(x)
+            if isinstance(x, float):
+                return x
+            if isinstance(x, (list, tuple)):
+                return [conv(y) for y in x]
+            if isinstance(x, dict) and all(isinstance(k, (str, int, bool, type(None))) for k in x):
+                return {k: conv(v) for k, v in x.items()}
+            raise _NotPlain()
+        allowed = {'sort_keys', 'indent', 'separators', 'ensure_ascii'}
+        if not set(kw) - allowed and len(args) == 1:
+            try:
+                return ConfText(_json.dumps(conv(args[0]), **kw), 'json', args[0])
+            except (_NotPlain, TypeError, ValueError):
+                pass
         return ConfText('<json>', 'json', args[0])
 
     @ext('xarray.open_dataset', 'xarray.load_dataset')
